@@ -315,6 +315,69 @@ def run(tier, seed, replay=None):
             if mv != real:
                 disagree("Rules.normalize_redirect_pattern <-> config._normalize_redirect_pattern", {"cwd": cwd, "pattern": pat}, mv, real)
 
+        # ---------------------------------------------------- B2. every helper of the normalisation chain, small alphabets exhaustively
+        import itertools
+        cwdp = Path(sc.cwd)
+        # tokens: every string of <= 4 characters over the characters _classify_token looks at (+ one neutral letter, one glob char)
+        T_CHARS = [".", "/", "~", "a", "*", ":"]
+        tokens4 = ["".join(t) for n in range(0, 5) for t in itertools.product(T_CHARS, repeat=n)]
+        tokens4 += ["$", "$a", "$/a", "a$", "~a", "~a/..", "a://", "a://a/..", "://", "~/a://", "/a://..", "-", "-/..", "a b", "é/..", "a\n/.."]
+        if quick:
+            tokens4 = [t for i, t in enumerate(tokens4) if len(t) <= 3 or i % 2 == 0]
+        for t in tokens4:
+            for force in (False, True):
+                real = rc.guarded(lambda: C._expand_token(t, cwdp, force_path=force))
+                mv = mcall(["expand_token", sc.cwd, t, force])
+                out.case(["et", t, force])
+                out.count("expand_token", C._classify_token(t, allow_url=not force))
+                if mv != real:
+                    disagree("Paths.expand_token <-> config._expand_token", {"cwd": sc.cwd, "token": t, "force_path": force}, mv, real)
+        # patterns / word lists: every sequence of <= 2 tokens (thorough: 3) over a token alphabet with every lone and prefixed form
+        TOK = [".", "..", "~", "/", "a", "./a", "../a", "a/..", "~/a", "/a", "a/", "a//b", "*", "a/*", "../*", "-f", "$X/a", "~u/a", "x://y",
+               "...", ".a", "~/", "./", "../", "..a", "a..", "~/..", "/.."]
+        seqs = [list(t) for n in (0, 1, 2) for t in itertools.product(TOK, repeat=n)]
+        seqs += [list(t) for t in itertools.product(TOK, repeat=3)][::(23 if quick else 1)]
+        SEPS = [" ", " ", " ", "  ", "\t", " \x0b", "\u00a0", "\x1f ", "\u2003"]
+        for si, ws in enumerate(seqs):
+            real = rc.guarded(lambda: C._normalize_words(list(ws), cwdp))
+            mv = mcall(["normalize_words", sc.cwd, ws])
+            out.case(["nw", ws])
+            if mv != real:
+                disagree("Paths.normalize_words <-> config._normalize_words", {"cwd": sc.cwd, "words": ws}, mv, real)
+            sep = SEPS[si % len(SEPS)]
+            ptxt = ("" if si % 7 else " ") + sep.join(ws) + ("" if si % 5 else " ")
+            real_p = rc.guarded(lambda: C._normalize_pattern(ptxt, cwdp))
+            mv = mcall(["normalize_pattern", sc.cwd, ptxt])
+            out.case(["npat", ptxt])
+            out.count("normalize_pattern", f"tokens={len(ws)}")
+            if mv != real_p:
+                disagree("Paths.normalize_pattern <-> config._normalize_pattern", {"cwd": sc.cwd, "pattern": ptxt}, mv, real_p)
+            # model-free: pattern normalisation of the joined words == word normalisation (C07_pattern_is_words on the real code)
+            if real_p != real and all(w and not any(ch.isspace() for ch in w) for w in ws):
+                out.violations.append({"kind": "norm-agree", "case": {"words": ws, "pattern": ptxt},
+                                       "what": f"_normalize_pattern({ptxt!r}) = {sc.unsub(str(real_p))!r} but _normalize_words({ws!r}) = {sc.unsub(str(real))!r}: "
+                                               "a rule written with the command's own words is normalised differently from the command",
+                                       "signature_text": f"norm-agree words={ws!r} pattern={ptxt!r}"})
+        for s_ in [" a  b ", "a\tb", "a\x0bb", "a\x1cb\x1db\x1eb\x1fb", "a\x85b", "a\u00a0b", "a\u1680b", "a\u2000b\u200ab", "a\u200bb", "a\u2028b\u2029b",
+                   "a\u202fb", "a\u205fb", "a\u3000b", "a\ufeffb", "", "   ", "\n", "a\r\nb"] + [rc.rand_text(rng, 6) for _ in range(200)]:
+            real = s_.split()
+            mv = mcall(["split_py", s_])
+            out.case(["split", s_])
+            if mv != real:
+                disagree("Paths.split_py <-> str.split()", {"text": s_}, mv, real)
+        # _resolve_alias: alias sources and the word from the token alphabet (first match in insertion order; compared normalised)
+        ATOK = ["a", "./a", "../proj/a", "~/a", "@CWD@/a", "@HOME@/a", "b", "a/", ".", "..", "~", "@CWD@", "a/../a", "*"]
+        for k, (s1, s2, w) in enumerate(itertools.product(ATOK, ATOK, ATOK)):
+            if quick and k % 3:
+                continue
+            al = {sc.sub(s1): "T1", sc.sub(s2): "T2"}
+            real = rc.guarded(lambda: C._resolve_alias(sc.sub(w), C.Config(aliases=al), cwdp))
+            mv = mcall(["resolve_alias", sc.cwd, sc.sub(w), [[a_, b_] for a_, b_ in al.items()]])
+            out.case(["alias", s1, s2, w])
+            out.count("resolve_alias", "hit" if real != sc.sub(w) else "miss")
+            if mv != real:
+                disagree("Rules.resolve_alias <-> config._resolve_alias", {"aliases": al, "word": w}, mv, real)
+
         # ---------------------------------------------------- C. match_redirect model <-> real (symlinks included)
         all_targets = []
         for s in REL_TARGETS:
@@ -431,6 +494,16 @@ def run(tier, seed, replay=None):
         depth = 1 if quick else 2
         fams = {n: spell.family(pth, sc.cwd, sc.home, links, depth) for n, pth, _ in files}
         out.extra["spelling_family_sizes"] = {n: len(f) for n, f in fams.items()}
+        # the specification function of the C09 theorems against the file system: nf(home, cwd, spelling) is the file, for every
+        # generated spelling that does not pass through a symbolic link
+        for n, pth, _ in files:
+            for x in fams[n]:
+                if "symlink" in x.how:
+                    continue
+                mv = mcall(["nf", sc.home, sc.cwd, str(x)])
+                out.case(["nf", spell.unsub(sc, x)])
+                if mv != pth:
+                    disagree("Paths.nf (the lexical normal form the C09 theorems speak about) <-> os.path.realpath", {"spelling": str(x), "how": x.how}, mv, pth)
         U = lambda x: spell.unsub(sc, x)
         n_spell = 0
         DECS = rc.VERDICTS
